@@ -4,15 +4,15 @@ import os
 
 from . import common as c
 
-SUPPORT = ["Safe/GoInt.v", "Safe/ErrBounds.v", "Safe/ConstsOk.v", "Safe/SizeArith.v", "Safe/Depth.v"]
+SUPPORT = ["Safe/GoInt.v", "Safe/ErrBounds.v", "Safe/ErrEcho.v", "Safe/ConstsOk.v", "Safe/SizeArith.v", "Safe/Depth.v"]
 
 CLAIM = {
     "gens": ["PureFns", "Consts"],
     "category": "proof",
     "text": "Theorems (Coq) over Gallina functions regenerated from the Go source on every run (tools/tx -> Gen/PureFns.v, Gen/Consts.v): "
             "errors.calcBounds / SyntaxError.description cannot make Src[p:q] or strings.Repeat panic for ANY source length and ANY int position "
-            "(negative, beyond the end); positions inside give an excerpt <= 32 bytes with the caret under the byte; the clause 'message bounded by a "
-            "constant' is REFUTED (pos outside [0,len), i.e. every EOF error, echoes the whole source). ast.SyntaxError.description is safe exactly for "
+            "(negative, beyond the end), and the excerpt is at most 32 bytes for EVERY position (after fix e5f5c29; before it every EOF error echoed "
+            "the whole source); positions inside put the caret under the byte. ast.SyntaxError.description is safe exactly for "
             "0 <= Pos <= len+16 and panics / grows without bound outside (refutations with witnesses). ParsingError.Message is total for codes < 2^63 and "
             "refuted above. MAX_RECURSE / _MaxStack / MaxStack / array lengths agree between native/*.h, the Go mirror structs, the generated decoder and the "
             "encoder, and the guarded pushes stay inside their arrays. Stream realloc always leaves room for Read (progress), GuardSlice2 never shrinks. "
@@ -371,7 +371,7 @@ def run(ctx):
     for k in sorted(seen_known):
         ctx.known(k, known[k]["signature"][:200] + " :: " + seen_known[k][:200])
     # a listed finding that no longer reproduces means code and record (or model) drifted apart
-    must = ["KF-C07-eof-error-echoes-source", "KF-C07-constructed-error-values-panic"]
+    must = ["KF-C07-constructed-error-values-panic"]
     gone = [k for k in must if k in known and k not in seen_known]
     if gone and not real and not problems and deep:
         problems.append(("T", "recorded finding(s) no longer reproduce on the implementation although the model still predicts them: " + ", ".join(gone)))
